@@ -94,7 +94,8 @@ def zeros (n : Nat) : List Nat := List.replicate n 0
 
 mutual
 /-- mirrors `load_memmap` / `_load_memmap` with a recursion budget (directory depth):
-    read `dir/meta.json`; a leaf entry whose file exists is mapped; a leaf entry **without file** is
+    read `dir/meta.json`; a leaf entry whose file exists is mapped over its `numel` elements (a stale
+    file left by an earlier save is mapped over zero elements); a leaf entry **without file** is
     an empty tensor when its shape has no element (after `fix: load_memmap restores entries without
     elements`; skipped on the pinned tree) and skipped otherwise; a collection entry is loaded from
     its sub-directory. -/
@@ -113,7 +114,7 @@ def loadEntries : Nat → FS → Path → List (String × MetaEntry) → Option 
     | none => none
     | some tl =>
       match fs (dir ++ [k ++ ".memmap"]) with
-      | some (.bytes b) => some ((k, .leaf dt sh b) :: tl)
+      | some (.bytes b) => some ((k, .leaf dt sh (if numel sh = 0 then [] else b)) :: tl)
       | _ => if numel sh = 0 then some ((k, .leaf dt sh []) :: tl) else some tl
   | fuel, fs, dir, (k, .coll _) :: rest =>
     match loadEntries fuel fs dir rest with
